@@ -19,6 +19,28 @@ claimed["C06"]=dict(cat="translation_validation", ref="DESIGN.md §4 C06",
 claimed["C08"]=dict(cat="translation_validation", ref="DESIGN.md §4 C08",
    text="Seeded scope programs redeclare x,y,z at every block-boundary kind (body, if-init, then/else, for-init, loop body, range key/value, case body; nesting ≤3; globals and parameters shadowed) with every initialiser a distinct symbolic input; a read resolving to the wrong binding yields a different term and the solver produces the distinguishing inputs.",
    note=TV_NOTE+" Bounded: 300 (quick) / 4000 (thorough) seeded programs, loops of 2 iterations.", tech="symbolic execution of Go SSA with symbolic taint labels + SMT equivalence against go/ssa(386) reference; native replay")
+
+claimed["C02"]=dict(cat="translation_validation", ref="DESIGN.md §4 C02",
+   text="Each corpus program is compiled and run twice by goatlang's real code inside the engine — optimizer on and off — from identical symbolic inputs; the solver decides equality of output, result count/dynamic type/value/rendering, success vs failure and the failure's file:line for all inputs. Corpora: typed-operation programs hitting every fused opcode with every numeric type, the C05/C06/C08/C09/C11/C12/C13 generators, and every string literal of the repo's *_test.go files.",
+   note="Both sides are goatlang (mode on vs off); the off pipeline is an in-package replica of Eval with compiler.Optimize=false. Bounded by the corpora and the per-path step bound. Counterexamples are replayed natively in both modes. Trusted: go/ssa, engine semantics, z3.", tech="symbolic execution of Go SSA, self-composition (optimizer on vs off) + SMT; native replay")
+claimed["C09"]=dict(cat="translation_validation", ref="DESIGN.md §4 C09",
+   text="Seeded call programs (callee with 0–5 parameters over int/byte/int8/uint32/float64/bool/string/[]int/*T/func, variadic tails with 0–3 extras or spread, 0–3 results; ten call forms incl. method value, func-typed variable/field/parameter, func literal, return f()) with distinct symbolic argument labels, untyped constants and nil; squares of parameters/results reveal their static types; recursion to concrete depths with symbolic accumulator.",
+   note=TV_NOTE+" Bounded: 400 (quick)/5000 (thorough) programs; recursion depth ≤300 quick, ≤3000 thorough. Wrong-arity calls are not valid Go and are covered by the C19 Call/Func lemmas instead.", tech="symbolic execution of Go SSA with symbolic labels + SMT equivalence against go/ssa(386) reference; native replay")
+claimed["C10"]=dict(cat="model_checking", ref="DESIGN.md §4 C10",
+   text="Host-API histories (Set/Delete/Get/Range per step chosen symbolically, keys symbolic: int32, float64 non-NaN, bool, strings from a small set) against a Go map model, a full Range after the history yielding each live key exactly once, nil-map reads, and mutation-during-range scenarios checked against the spec's guarantees with maps.Keys returning every permutation; plus script-level map programs compared with Go through order-independent aggregates.",
+   note="Bounded: history length 4 (quick)/6 (thorough); maps ≤ 5 live keys; permutations for ≤4 keys. Trusted: go/ssa, engine map semantics (ordered association list with solver-decided key aliasing), z3; replay natively.", tech="symbolic execution of Go SSA (bounded model checking of operation histories with symbolic keys) + SMT; native replay")
+claimed["C11"]=dict(cat="translation_validation", ref="DESIGN.md §4 C11",
+   text="Seeded histories over three aliasing []int variables (make, literal, sub-slice incl. up to a known capacity, element write, append in place / reallocating / nil receiver / spread, copy, nil, range) with all variables printed after each step and symbolic element values; every 4th program ends with read/write/re-slice at unconstrained symbolic indexes (out of range ⇒ error on both sides).",
+   note=TV_NOTE+" Only growth-policy-independent steps are generated (capacity tracked by the generator); both sides use Go's real growslice formula. Bounded: 300/5000 programs of ≤6/≤10 steps.", tech="symbolic execution of Go SSA + SMT equivalence against go/ssa(386) reference; native replay")
+claimed["C12"]=dict(cat="model_checking", ref="DESIGN.md §4 C12",
+   text="Inductive step on the real robin-hood table: from an ARBITRARY size-16 table (every distance/key/value cell symbolic) satisfying the representation invariant I1–I5, one Set/Assign/Get/Delete/Copy with an arbitrary key re-establishes the invariant and changes the abstract contents exactly as a map would — one step covers histories of any length within the bound; plus growth/shrink threshold histories, collision histories, and script-level struct programs with 0..49 (thorough ..200) fields compared with Go.",
+   note="Bounded: table size 16 with ≤3 (quick)/≤8 (thorough) live entries in the arbitrary pre-state; resize only via the concrete threshold histories (16→32→64 and back). A counterexample from an unreachable pre-state would mean the invariant is too weak (none occurs). Trusted: go/ssa, engine, z3 (QF_BV tactic).", tech="symbolic execution of Go SSA from an arbitrary invariant-satisfying state (inductive step) + SMT (z3 qfbv); native replay")
+claimed["C13"]=dict(cat="translation_validation", ref="DESIGN.md §4 C13",
+   text="Operation templates (len, index incl. static type, slice, range offsets, []byte/string/rune conversions, six comparisons, concatenation with operands re-read) over strings whose BYTES are symbolic (every length 0..3 quick, 0..5 thorough — all UTF-8 width classes, truncated and invalid sequences) with symbolic positions; plus string- and character-literal spellings decided against Go's value of the same literal.",
+   note=TV_NOTE+" Bounded: string length ≤3/≤5, positions in [-2,8]; literal list enumerated (tokenizer delegated natively).", tech="symbolic execution of Go SSA with symbolic-content strings (UTF-8 decoder modelled, forks per byte class) + SMT equivalence against go/ssa(386) reference; native replay")
+claimed["C19"]=dict(cat="model_checking", ref="DESIGN.md §4 C19",
+   text="Constructor/accessor round trips for ALL values of each scalar type (solver-decided), the six NewFunc adapter forms × arity 0..6 × results 0..4 (variadic: fixed 0..3 + extras 0..3) called from scripts with other operands on the stack (argument/result labels symbolic), Call/Func with every requested result count and wrong arities, and native-panic / nested-call failures surfacing as the outer error.",
+   note="Bounded by the arity/result tables; one call per harness. Trusted: go/ssa, engine (exact growslice model so stack reallocation aliasing is faithful), z3; replay natively.", tech="symbolic execution of Go SSA (lemma harnesses with symbolic labels) + SMT; native replay")
 reasons={}
 checks=[]
 for pid in ALL:
